@@ -60,6 +60,7 @@ type FuncContract struct {
 	External bool // from /verif/specs/ext
 	NoTerm   bool // termination not claimed
 	Asserts  []*Clause
+	CallSites map[string][]*Clause // callee short name -> assertions evaluated at every call to it
 	IsLemma  bool     // a lemma over spec expressions: parameters are universally quantified, no code
 	PTypes   []string // lemma parameter types (Go syntax)
 	File     string
@@ -68,6 +69,7 @@ type FuncContract struct {
 }
 
 type SpecFunc struct {
+	PkgPath string
 	Name   string
 	Params []string
 	PTypes []string
@@ -99,7 +101,7 @@ var tagRe = regexp.MustCompile(`^\[([A-Za-z0-9_, ]+)(?::([A-Za-z0-9_\-\.]+))?\]\
 var keywords = map[string]bool{
 	"func": true, "props": true, "requires": true, "ensures": true, "modifies": true,
 	"loop": true, "invariant": true, "decreases": true, "inline": true, "trusted": true,
-	"pure": true, "unroll": true, "spec": true, "package": true, "noterm": true, "assert": true, "axiom": true, "lemma": true,
+	"pure": true, "unroll": true, "spec": true, "package": true, "noterm": true, "assert": true, "axiom": true, "lemma": true, "callsite": true,
 }
 
 // LoadFile parses a contract file. pkgPath is the default package path
@@ -191,6 +193,7 @@ func (cs *Contracts) LoadFile(path string, pkgPath string, external bool) error 
 			if err != nil {
 				return errf("%v", err)
 			}
+			sf.PkgPath = pkgPath
 			cs.Specs[sf.Name] = sf
 		default:
 			if cur == nil {
@@ -252,6 +255,30 @@ func (cs *Contracts) LoadFile(path string, pkgPath string, external bool) error 
 					}
 					curLoop.Invariants = append(curLoop.Invariants, c)
 				}
+			case "callsite":
+				// callsite <callee>: <expr>   (arguments of the call are arg0, arg1, ...)
+				i := strings.Index(rest, ":")
+				if i < 0 {
+					return errf("callsite needs '<callee>: <expr>'")
+				}
+				callee := strings.TrimSpace(rest[:i])
+				body := strings.TrimSpace(rest[i+1:])
+				c := &Clause{Kind: "callsite", File: path, Line: l.line}
+				if m := tagRe.FindStringSubmatch(body); m != nil {
+					c.Props = strings.Fields(strings.ReplaceAll(m[1], ",", " "))
+					c.Label = m[2]
+					body = body[len(m[0]):]
+				}
+				c.Text = body
+				e, err := ParseExpr(body)
+				if err != nil {
+					return errf("%v", err)
+				}
+				c.E = e
+				if cur.CallSites == nil {
+					cur.CallSites = map[string][]*Clause{}
+				}
+				cur.CallSites[callee] = append(cur.CallSites[callee], c)
 			case "decreases":
 				if curLoop == nil {
 					return errf("decreases outside loop")
